@@ -16,7 +16,7 @@ from hexital import Hexital
 
 from .. import planlib, refmodels, world
 from ..catalogue import CLASSES, build, mk_candles, sample_spec, spec_label
-from ..core import Discard, LibError, Violation, run_property
+from ..core import Discard, LibError, Violation, filled_size, run_property
 from ..util import candle_core, freeze, secs, sub_rng, tf_seconds
 
 ID = "C15"
@@ -145,6 +145,7 @@ def execute(trace, ctx=None):
         cfg = trace["config"]
         life = cfg["lifespan_s"]
         label = "+".join(spec_label(m) for m in cfg["members"])
+        tfs = [m["common"].get("timeframe") for m in cfg["members"]]
         delivered = []
         subject = twin = None
         s_members = t_members = None
@@ -205,9 +206,9 @@ def execute(trace, ctx=None):
             # ---- the subject
             try:
                 if kind == "new":
-                    subject, s_members = run.call(len(rows) * 4, _build, cfg, rows, True)
+                    subject, s_members = run.call(filled_size(rows, tfs) * 4, _build, cfg, rows, True)
                 else:
-                    run.call(len(delivered) * 4, subject.append, mk_candles(rows))
+                    run.call(filled_size(delivered, tfs) * 4, subject.append, mk_candles(rows))
             except LibError as e:
                 if not armed:
                     run.stats["guard:exception_while_disarmed"] += 1
